@@ -40,6 +40,9 @@ FALSY_KINDS = {
     "QuotOfProd0": Quot(Prod(C(0), X), C(2)),
 }
 EXPR_KINDS.update(FALSY_KINDS)
+FLOAT_EXTREMES = {"1e200": 1e200, "1e-200": 1e-200, "0.1": 0.1, "3.0": 3.0, "1e308": 1e308,
+                  "5e-324": 5e-324, "2**53": float(2**53)}
+FX_POINTS = (1e-300, 1e300, 7.0, 1.0, -3.5, 1e-5)
 NUM_KINDS = {"0": 0, "1": 1, "-1": -1, "2": 2, "0.0": 0.0, "1.0": 1.0, "2.5": 2.5, "True": True,
              "False": False}
 REDUCED = ["Var", "Var2", "Sum", "Product2", "Quotient", "Power", "0", "1", "-1", "2", "2.5"]
@@ -293,6 +296,40 @@ def run_reg_history(hist):
 # }}}
 
 
+def check_prog_floats(prog, r=None):
+    """The operator-built tree against the plain float computation in the written order, at
+    points of extreme magnitude, compared EXACTLY (bit for bit, inf and nan included)."""
+    import math
+    leafv = dict(NUM_KINDS, **FLOAT_EXTREMES)
+    try:
+        tree = run_prog(prog, lambda k: leafv[k] if k in leafv else operand(k))
+    except (TypeError, AssertionError, ZeroDivisionError, OverflowError):
+        return None
+    tspec = to_spec(tree)
+    any_point = False
+    for vx in FX_POINTS:
+        try:
+            want = run_prog(prog, lambda k: leafv[k] if k in leafv else vx)
+        except (ZeroDivisionError, OverflowError):
+            continue
+        env = base_env()
+        env["x"] = vx
+        got = refsem.outcome(refsem.evaluate, tspec, env)
+        if r is not None:
+            r.evals += 1
+        any_point = True
+        same = got[0] == "ok" and isinstance(got[1], float) and (
+            (math.isnan(want) and math.isnan(got[1]))
+            or (got[1] == want and math.copysign(1, got[1]) == math.copysign(1, want)))
+        if not same:
+            return ("float-value", f"{show_prog(prog)} built {show(tspec)}; at x={vx!r} the plain "
+                    f"computation gives {want!r}, the tree evaluates to "
+                    f"{refsem.show_outcome(got)}")
+    if r is not None and any_point:
+        r.keys.append(prog)
+    return None
+
+
 def subprograms(prog):
     if isinstance(prog, str):
         return
@@ -320,7 +357,10 @@ class C03(Check):
             "programs around 9 falsy or falsy-containing composite operands (0 // x, 0 % x, 0 / x, "
             "0 * x, 5 - 0 // x ...); all histories up to depth 3 (thorough 4) of register / "
             "unregister_constant_class and operator uses for two number classes (Fraction and a "
-            "subclass) against a list model. Each over the box {-2..3, 1/2, -3/2}^2 (quick: 6 values). "
+            "subclass) against a list model; products / sums / quotients of a variable with two float "
+            "constants of extreme magnitude (1e200, 1e-200, 1e308, 5e-324, 0.1, 3.0) in left-associated "
+            "chains, compared "
+            "bit for bit at 6 points. Each over the box {-2..3, 1/2, -3/2}^2 (quick: 6 values). "
             "Non-trivial = the plain computation is defined in at least one environment; distinct "
             "= distinct programs.")
     assumptions = [
@@ -329,6 +369,9 @@ class C03(Check):
         "float-valued results are compared with relative tolerance 1e-12 (splicing a sum into a "
         "sum changes the association of a float addition); everything else exactly",
         "results that are not expression trees (Rational objects) are judged in C19",
+        "a right-nested a * (b * x) / a + (b + x) is spliced into one n-ary node and thereby "
+        "re-associated (by design); a literal zero factor is simplified away (sign of zero, inf * 0 "
+        "are not represented): the bit-exact float family uses left-associated chains and no zeros",
     ]
     chunk = 50
 
@@ -375,6 +418,22 @@ class C03(Check):
                     for c, s in itertools.product(["2", "1", "0"], ["Var2", "2"]):
                         yield ("prog", ("bin", o2, s, ("bin", o1, c, fk)))
                         yield ("prog", ("bin", o2, ("bin", o1, c, fk), s))
+
+        def floatx():
+            # successive float factors / terms of extreme magnitude: the tree has to keep the
+            # association the operators were applied in (1e200 * 1e200 overflows, 0.1 * 3 rounds)
+            fk = list(FLOAT_EXTREMES)
+            for o in ("*", "+"):
+                for a, b in itertools.product(fk, repeat=2):
+                    # left-associated chains only: a * (b * x) is spliced into ONE n-ary node
+                    # (a, b, x), i.e. re-associated by design
+                    yield ("fx", ("bin", o, ("bin", o, "Var", a), b))
+                    yield ("fx", ("bin", o, ("bin", o, a, "Var"), b))
+                    yield ("fx", ("bin", o, ("bin", o, ("bin", o, "Var", a), b), a))
+            for a, b in itertools.product(fk, repeat=2):
+                yield ("fx", ("bin", "/", ("bin", "*", "Var", a), b))
+                yield ("fx", ("bin", "*", ("bin", "/", "Var", a), b))
+                yield ("fx", ("bin", "-", ("bin", "+", "Var", a), b))
 
         def registration():
             for depth_first in REG_MENU:
@@ -425,6 +484,7 @@ class C03(Check):
                 if r != "Rational" and l != "Rational":
                     yield ("smart", "quotient", (l, r))
         return [("single", single), ("double", double), ("falsy-operands", falsy),
+                ("float-extremes", floatx),
                 ("constant-class-registration", registration), ("noncommutative", noncomm),
                 ("ordering", order), ("methods", methods), ("smart-constructors", smart)]
 
@@ -446,6 +506,12 @@ class C03(Check):
                         break
                 r.fail(f[0], f"{f[0]}|{sig_prog(culprit)}", f"in {show_prog(prog)}: {f[1]}",
                        witness=(mode, culprit))
+            return r
+        if mode == "fx":
+            prog = item[1]
+            f = check_prog_floats(prog, r)
+            if f:
+                r.fail(f[0], f"{f[0]}|{sig_prog(prog)}", f[1], witness=("fx", prog))
             return r
         if mode == "reg":
             depth = 3 if tier == "quick" else 4
@@ -624,8 +690,6 @@ class C03(Check):
             first = to_spec(tree)
             for cname, container in (("same list again", lambda seq: ops if len(seq) == len(ops)
                                       else seq), ("tuple", tuple), ("iterator", iter)):
-                if fn == "linear_combination" and cname == "iterator":
-                    continue
                 again = to_spec(call(container))
                 r.evals += 1
                 if again != first:
